@@ -463,6 +463,12 @@ def absLossGuard (w : WArg) (a : AArg) (yNonneg : Bool) : Guard :=
     | .none | .identity => if yNonneg then .hasProxClosed else .noProx
     | _ => .noProx)
 
+/-- `NuclearNorm.prox` and `__call__` accept two-dimensional arrays only (`ValueError` otherwise) -/
+def nuclearAccepts (ndim : Nat) : Bool := ndim == 2
+
+/-- `L21Norm.prox` and `__call__`: a `BlockArray` argument needs `l2_axis=None` (`ValueError` otherwise) -/
+def l21Accepts (isBlock axisIsNone : Bool) : Bool := !isBlock || axisIsNone
+
 /-! ### `L21Norm(l2_axis=...)`: which entries of an N-d array (or of a block array) form one L2 group -/
 
 /-- index along axis `d` of the flat (row-major) index `i` in an array of shape `shape` (`np.unravel_index`) -/
